@@ -228,6 +228,23 @@ def run_cases(ctx, model, cases):
         if not fault_w:
             if sres != ["ok"] * len(pkts) or sclosed:
                 ctx.violation("send-fails-without-fault:" + kind, cs, observed=sres, expected="all ok", what="send raised although the transport accepted every write")
+            else:
+                # what is on the wire, read by the independent reference framing: exactly one whole frame per packet (header, body, trailer), nothing else
+                from harness import refcodec as R
+                buf, got_frames = bytes(wire), []
+                try:
+                    while buf:
+                        u = R.unframe(buf)
+                        if u is None:
+                            got_frames.append("incomplete:%d bytes left" % len(buf)); break
+                        got_frames.append((u[0], u[3]))
+                        buf = u[2]
+                except Exception as e:
+                    got_frames.append("unreadable:" + type(e).__name__)
+                if got_frames != [(p_, b"\n") for p_ in pkts]:
+                    bad = next((i for i, (g, p_) in enumerate(zip(got_frames + [None] * len(pkts), pkts)) if g != (p_, b"\n")), len(pkts))
+                    ctx.violation("wire-is-not-one-frame-per-packet:" + kind, cs, observed={"frames_read": len(got_frames), "first_bad": bad, "what": str(got_frames[bad])[:60] if bad < len(got_frames) else "missing"},
+                                  expected="%d frames, each length + flag + body + newline" % len(pkts), what="the bytes sent do not parse as one published frame per packet (a reader is mis-framed from there on)")
         else:
             if "EOFError" in sres and not sclosed:
                 ctx.violation("send-eof-but-stream-open:" + kind, cs, observed=sres, expected="closed stream", what="write failure raised EOFError but left the stream open")
@@ -336,6 +353,8 @@ def gen_case(r, big):
     kind = r.choice(["sock", "sock", "pipe"])
     n = r.choice([0, 1, 1, 2, 3, 5])
     sizes = [r.choice(SIZES if big else SIZES[:11]) if r.random() < 0.8 else r.randint(0, 9000) for _ in range(n)]
+    if sizes and big and r.random() < 0.7:
+        sizes.append(r.choice([1, 5, 100]))         # something always follows: a frame that loses or gains a byte shows on the next one
     pkts = [payload(r, s) for s in sizes]
     cs = {"kind": kind, "cmp_s": r.random() < 0.6, "pkts": pkts, "wevs": gen_wevs(r), "revs": gen_revs(r, sum(sizes)), "cut": None, "corrupt": None,
           "rkind": r.choice(["sock", "sock", "pipe"]), "cmp_r": r.random() < 0.6}
